@@ -7,12 +7,12 @@ from props import c09_extract
 
 PROP = 'C09'
 TITLE = 'Name representations (URI, component list, wire) are mutually consistent'
-LEAN_TARGETS = ['NdnProofs.Props.C09', 'NdnProofs.Props.C09Tables']
+LEAN_TARGETS = ['NdnProofs.Props.C09', 'NdnProofs.Props.C09Tables', 'NdnProofs.Props.C09ToStr']
 THEOREMS = [
     'Ndn.C09.decode_encode_name', 'Ndn.C09.normalize_wire',
     'Ndn.C09.isPrefix_iff', 'Ndn.C09.isPrefix_iff_componentwise',
     'Ndn.C09.unescape_escape', 'Ndn.C09.fromStr_toCanonicalUri', 'Ndn.C09.getType_getValue',
-    'Ndn.C09.fromStr_toStr', 'Ndn.C09.fromStr_shorthand_number', 'Ndn.C09.fromStr_shorthand_digest',
+    'Ndn.C09.fromStr_toStr', 'Ndn.C09.toStr_total', 'Ndn.C09.fromStr_toStr_oddwidth', 'Ndn.C09.fromStr_shorthand_number', 'Ndn.C09.fromStr_shorthand_digest',
     'Ndn.C09.name_fromStr_toCanonicalUri', 'Ndn.C09.name_fromStr_toStr', 'Ndn.C09.normalize_agree',
     'Ndn.C09.write_lex_mono', 'Ndn.C09.bytesLt_iff_lex', 'Ndn.C09.order_canonical_component', 'Ndn.C09.order_canonical_name',
     'Ndn.C09.order_canonical_name_list',
@@ -199,6 +199,12 @@ def _comp(rng):
             v = _pack(_number(rng))
         elif r < 0.85:
             v = b'\x00' * rng.choice([1, 2, 3]) + _pack(_number(rng))[:3]     # non-canonical width
+        elif r < 0.9:
+            # not a nonNegativeInteger at all: widths other than 1/2/4/8, up to beyond CPython's 4300-digit
+            # int-to-str limit (1786 bytes) - to_str prints these generically (fixed in /repo: it used to raise)
+            n = rng.choice([3, 5, 6, 7, 9, 16, 17, 1785, 1786, 1787, 1800])
+            v = bytes(rng.randrange(1, 256) for _ in range(min(n, 8))) * (n // 8 + 1)
+            v = v[:n]
         else:
             v = _value(rng)
     elif t in (1, 2) and rng.random() < 0.5:
